@@ -1,6 +1,7 @@
 (** Entry.v — one entry point per model function for the correspondence check:
     the harness sends  ["op", arg]  as one line of ASCII JSON, the model answers one line. *)
 From InToto.Model Require Import Base Json Rule Glob Rules Utf8 Match DirDigest Canon EntryVerify.
+From InToto.Model Require EntryRun.
 
 Definition s_ok : str := [111;107]%N.
 Definition jok (j : json) : json := JDict [(s_ok, j)].
@@ -129,7 +130,8 @@ Definition run_op (op : str) (arg : json) : json :=
   else if eqs op op_pack_unpacked then
     (* unpack, then pack the meaning: {"ok": [tokens]} / {"err": ..} ; error if unpack fails *)
     jres jstr_list (do m <- unpack_rule arg; pack_rule m)
-  else jerr EUnmodelled.
+  else match EntryRun.run_op_run op arg with Some r => r | None =>
+  jerr EUnmodelled end.
 
 Definition bad_request : list N := [66;65;68;45;82;69;81;85;69;83;84]%N.
 
